@@ -124,3 +124,94 @@ def modelObs (c : Class) (e : Env) : Obs :=
     pend := if c.pending then .ok else .na }
 
 end CmdTransport
+
+namespace CmdTransport
+
+/-! ### which model run explains an observation: a grid of environments per class
+
+Real time is not reproducible, so the model is compared as a SET of behaviours: the driver looks for an
+environment of the case's class (TerminateDuration = 4 ticks; delays, lag and kernel latency on a grid)
+whose run gives the observed result and cause of death, needs no more timer expiries than the observed
+elapsed bucket allows, and delivered SIGTERM if the child reported one.  Only such time-robust facts are
+compared; the monitor (above) judges the property. -/
+
+def gridDelays : List Nat := [0, 1, 2, 3, 4, 5, 6, 7, 8, 9, 10, 13]
+
+def classEnvs (c : Class) : List Env :=
+  let eofs : List (Option Nat) := if c.eof = .ign then [none] else gridDelays.map some
+  let terms : List (Option Nat) := match c.term with
+    | .ign => [none]
+    | .dfl => [some 0]           -- the default disposition ends the process at once
+    | _ => gridDelays.map some
+  let selfs : List (Option Nat) := if c.self = .no then [none] else gridDelays.map some
+  selfs.flatMap fun sf => eofs.flatMap fun eo => terms.flatMap fun to =>
+    [0, 1, 5, 9, 13].flatMap fun lag => [0, 1, 5].map fun kd =>
+      { td := 4, self := sf, selfNonzero := c.self = .x2, eof := eo, eofNonzero := c.eof = .x3,
+        term := to, termDefault := c.term = .dfl, killDelay := kd, lag := lag }
+
+/-- The nominal environment of a class: everything prompt. -/
+def nominalEnv (c : Class) : Env :=
+  { td := 4, self := if c.self = .no then none else some 0, selfNonzero := c.self = .x2,
+    eof := match c.eof with | .ign => none | .slow => some 2 | _ => some 0, eofNonzero := c.eof = .x3,
+    term := match c.term with | .ign => none | .hslow => some 2 | _ => some 0, termDefault := c.term = .dfl }
+
+def matchesEnv (c : Class) (o : Obs) (e : Env) : Bool :=
+  let m := modelObs c e
+  m.res == o.res && m.death == o.death && decide ((run e).expiries ≤ o.eb) &&
+    (o.term == .none || (run e).termAt.isSome)
+
+def explain (c : Class) (o : Obs) : Option Env := (classEnvs c).find? (matchesEnv c o)
+
+theorem explain_sound (c : Class) (o : Obs) (e : Env) (h : explain c o = some e) :
+    e ∈ classEnvs c ∧ matchesEnv c o e = true := by
+  unfold explain at h
+  exact ⟨List.mem_of_find?_eq_some h, List.find?_some h⟩
+
+/-- Must Connect fail?  Only a session-level Connect against a child that answers with garbage. -/
+def connectFails (c : Class) : Bool := c.sess && c.garbage
+
+/-- The model's line for a record: the implementation's own observation where the model has a run that
+explains it (with the model's values for everything the model determines), else the nominal run. -/
+def modelLine (c : Class) (o : Obs) : Obs :=
+  if connectFails c then
+    { connectOk := false, res := .na, eb := 0, death := .nr, term := o.term, gone := true, leak := false, second := .na, pend := .na }
+  else
+    match explain c o with
+    | some e =>
+      let m := modelObs c e
+      { m with eb := o.eb, term := o.term, pend := if c.pending then (if o.pend = .err then .err else .ok) else .na }
+    | none =>
+      let m := modelObs c (nominalEnv c)
+      { m with eb := (run (nominalEnv c)).expiries }
+
+/-! ### Server.Run (mcp/server.go) in-process over an IOTransport -/
+
+inductive SrvEnd | eof | cancel | both deriving DecidableEq, Repr, Inhabited
+inductive SrvRet | nil | canceled | err | hang deriving DecidableEq, Repr, Inhabited
+
+structure SrvObs where
+  ret : SrvRet := .nil
+  sessions : Nat := 0
+  leak : Bool := false
+deriving DecidableEq, Repr, Inhabited
+
+/-- Server.Run: `select { ctx.Done → ss.Close(); <-ssClosed; return ctx.Err() | err := <-ssClosed → return err }`.
+`ctxFirst` is the scheduler's choice when both are ready. -/
+def srvRun (e : SrvEnd) (ctxFirst : Bool) : SrvObs :=
+  match e with
+  | .eof => { ret := .nil }
+  | .cancel => { ret := .canceled }
+  | .both => { ret := if ctxFirst then .canceled else .nil }
+
+inductive SrvClause | noReturn | sessionLeft | goroutineLeft deriving DecidableEq, Repr, Inhabited
+
+def srvMonitor (o : SrvObs) : Option SrvClause :=
+  if o.ret = .hang then some .noReturn
+  else if o.sessions ≠ 0 then some .sessionLeft
+  else if o.leak = true then some .goroutineLeft
+  else none
+
+def srvModelLine (e : SrvEnd) (o : SrvObs) : SrvObs :=
+  if srvRun e true = o then o else if srvRun e false = o then o else srvRun e true
+
+end CmdTransport
